@@ -23,12 +23,13 @@ RULE = (
     "and without a supplied Halton sampler (then with n or n+1 actions), 1-3 sessions plus sessions without batches, losses "
     "including exact 0.0 and a non-finite bootstrap loss; oracle: first batch ever by the bootstrap Halton sampler (the "
     "supplied one if present), every later batch by samplers[a] for the k-th policy result a of its session, only supplied "
-    "samplers or the bootstrap are used. ctor: the four samplers/scheduler argument combinations; exactly one accepted, "
+    "samplers or the bootstrap are used; a third of the RL runs with verbose=True; switch: a round-robin calibration handed an "
+    "RLScheduler in mid-run (its first batch is its own bootstrap batch, then the agent's choices). ctor: the four samplers/scheduler argument combinations; exactly one accepted, "
     "both-or-neither -> ValueError. Non-trivial = n >= 2 with a split or restore not on a multiple of n; distinct by "
     "(line-up, cut labelling)."
 )
 ASSUMPTIONS = ["cheap sampler classes only (order, not numerics, is at stake)", "the RL scheduler cannot be checkpointed (known finding under C04): RL runs use no restore"]
-REQUIRED_COUNTERS = {"rr_lineups_with_one_object_twice": 1, "rr_runs_converging_every_batch": 5, "rr_scheduler_reseeded_between_calls": 8, "rr_caller_mutated_its_list": 5, "rl_sessions_without_batches": 3, "rl_agent_may_choose_the_appended_bootstrap": 3, "rr_set_samplers_between_calls": 10, "rr_failed_batches_then_retry": 10, "rl_runs_with_a_zero_loss": 5, "rr_batches": 300, "rr_runs": 60, "rr_restores": 40, "rl_batches": 60, "rl_sessions": 25, "ctor_combinations": 8}
+REQUIRED_COUNTERS = {"rr_to_rl_switches": 4, "rl_runs_with_verbose_on": 6, "rr_lineups_with_one_object_twice": 1, "rr_runs_converging_every_batch": 5, "rr_scheduler_reseeded_between_calls": 8, "rr_caller_mutated_its_list": 5, "rl_sessions_without_batches": 3, "rl_agent_may_choose_the_appended_bootstrap": 3, "rr_set_samplers_between_calls": 10, "rr_failed_batches_then_retry": 10, "rl_runs_with_a_zero_loss": 5, "rr_batches": 300, "rr_runs": 60, "rr_restores": 40, "rl_batches": 60, "rl_sessions": 25, "ctor_combinations": 8}
 SHARDS = {"quick": 16, "thorough": 16}
 SHARD_WATCHDOG = {"quick": 1500, "thorough": 10800}
 
@@ -38,6 +39,7 @@ def gen_cases(tier, seed):
     cases = [{"kind": "rr", "i": i, "seed": seed} for i in range(40 * k)]
     cases += [{"kind": "rl", "i": i, "seed": seed} for i in range(40 * k)]
     cases += [{"kind": "ctor", "i": i, "seed": seed} for i in range(2)]
+    cases += [{"kind": "switch", "i": i, "seed": seed} for i in range(8 * k)]
     return cases
 
 
@@ -197,6 +199,9 @@ def run_rl(desc, ctx, out):
     if cfg["lineup"][0]["kind"] == "BestBatch":
         cfg["lineup"][0] = G.gen_sampler_desc(rng, "RandomUniform", batch_size=1)
     policy_log = []
+    rl_verbose = desc["i"] % 3 == 1     # logging on (the default): the log lines must not consume anything from the exchange
+    if rl_verbose:
+        c["rl_runs_with_verbose_on"] = c.get("rl_runs_with_verbose_on", 0) + 1
     scripted = desc["i"] % 2 == 0
     n_supplied = len(cfg["lineup"])
     sessions = [int(x) for x in rng.integers(1, 4, size=int(rng.integers(1, 4)))]
@@ -258,11 +263,11 @@ def run_rl(desc, ctx, out):
             c["rl_runs_with_a_zero_loss"] = c.get("rl_runs_with_a_zero_loss", 0) + 1
             cal = Calibrator(loss_function=SentinelLoss(p=1), real_data=np.zeros((1, 1)), model=MM.Scripted(vals),
                              parameters_bounds=np.array(cfg["space"]["bounds"]), parameters_precision=np.array(cfg["space"]["precision"]),
-                             ensemble_size=1, scheduler=sched, verbose=False, random_state=cfg["seed"], n_jobs=1)
+                             ensemble_size=1, scheduler=sched, verbose=rl_verbose, random_state=cfg["seed"], n_jobs=1)
         else:
             cal = Calibrator(loss_function=LG.build_loss(cfg["loss"]), real_data=CG.real_data(cfg), model=CG.model_for(cfg),
                              parameters_bounds=np.array(cfg["space"]["bounds"]), parameters_precision=np.array(cfg["space"]["precision"]),
-                             ensemble_size=1, scheduler=sched, verbose=False, random_state=cfg["seed"], n_jobs=1)
+                             ensemble_size=1, scheduler=sched, verbose=rl_verbose, random_state=cfg["seed"], n_jobs=1)
     supplied_ids = {id(s) for s in samplers}
     halton_supplied = [s for s in samplers if isinstance(s, HaltonSampler)]
     first_ever = True
@@ -272,10 +277,18 @@ def run_rl(desc, ctx, out):
 
         with CM.RunMonitor(cal, snapshots=False) as mon, YieldInjector(int(rng.integers(2**31))) as inj:
             try:
-                with quiet(), G.time_limit(G.LIMIT):
+                with quiet(), G.time_limit(90):
                     cal.calibrate(m)
             except G.Timeout:
-                out["inconclusive"] = "RL calibrate() did not return within the time limit"
+                from vlib import hang
+
+                what, can = hang.agent_state(sched)
+                hang.release(sched)
+                if not can:
+                    out["violations"].append({"msg": f"session {si}: calibrate({m}) did not return within 90 s; {what}, so the calibration waits for an action nobody will send "
+                                                     "(the exchange with the agent stalled)", "witness": wit})
+                else:
+                    out["inconclusive"] = "RL calibrate() did not return within the time limit"
                 return
             except Exception as e:  # noqa: BLE001
                 out["violations"].append({"msg": f"RL run raised {type(e).__name__}: {str(e)[:160]}", "witness": wit})
@@ -308,6 +321,78 @@ def run_rl(desc, ctx, out):
         out["nontrivial"].append(jhash(wit))
     if desc["i"] < 2:
         out["sample"] = dict(wit, policy_results=[a for _, a in policy_log], method_samp=cal.method_samp)
+
+
+def run_switch(desc, ctx, out):
+    """A calibration that starts round-robin and is handed an RL scheduler in mid-run: the RL scheduler's own first batch is the bootstrap."""
+    import threading
+
+    from black_it.samplers.halton import HaltonSampler
+    from black_it.schedulers.rl.agents.base import Agent
+    from black_it.schedulers.rl.envs.mab import MABCalibrationEnv
+    from black_it.schedulers.rl.rl_scheduler import RLScheduler
+
+    rng = rng_for(desc["seed"], 9, 2, desc["i"])
+    c = out["counters"]
+    cfg = CG.gen_config(rng, kinds=["RandomUniform", "RSequence", "Halton"], n_samplers=int(rng.integers(1, 4)), max_bs=2, loss_kinds=["minkowski"], max_params=2,
+                        ensemble=1, scheduler="list")
+    k0 = int(rng.integers(1, 4))
+    with quiet():
+        cal = CG.build_calibrator(cfg)
+        cal.calibrate(k0)
+    newl = [G.gen_sampler_desc(rng, kk, batch_size=int(rng.integers(1, 3))) for kk in rng.choice(["RandomUniform", "RSequence", "ParticleSwarm"], size=int(rng.integers(1, 4)))]
+    samplers = [G.build_sampler(d) for d in newl]
+    n_act = len(samplers) + 1
+    script = [int(x) for x in rng.integers(0, n_act, size=30)]
+    plog = []
+
+    class Scripted(Agent):
+        def __init__(self):
+            super().__init__(random_state=0)
+            self.i = 0
+
+        def policy(self, s):
+            a = script[self.i % len(script)]
+            self.i += 1
+            plog.append(a)
+            return a
+
+        def learn(self, *a):
+            pass
+
+    sched = RLScheduler(samplers, agent=Scripted(), env=MABCalibrationEnv(n_act))
+    wit = {"first_lineup": [d["kind"] for d in cfg["lineup"]], "batches_before_the_switch": k0, "rl_lineup": [d["kind"] for d in newl], "script": script[:8]}
+    m = int(rng.integers(2, 5))
+    try:
+        with quiet():
+            cal.set_scheduler(sched)
+        with CM.RunMonitor(cal, snapshots=False) as mon, quiet(), G.time_limit(120):
+            cal.calibrate(m)
+    except G.Timeout:
+        out["violations"].append({"msg": "after set_scheduler(RLScheduler) in mid-run calibrate() did not return within 120 s (the exchange with the agent stalled)", "witness": wit})
+        try:
+            sched._stopped = True
+            sched._out_queue.put(None)
+        except Exception:  # noqa: BLE001
+            pass
+        return
+    except Exception as e:  # noqa: BLE001
+        out["violations"].append({"msg": f"after set_scheduler(RLScheduler) in mid-run calibrate() raised {type(e).__name__}: {str(e)[:140]}", "witness": wit})
+        return
+    c["rr_to_rl_switches"] = c.get("rr_to_rl_switches", 0) + 1
+    out["evals"] += 1
+    out["nontrivial"].append(jhash(wit))
+    bs = mon.batches()
+    if len(bs) != m:
+        out["violations"].append({"msg": f"{len(bs)} batches ran for calibrate({m}) after the switch", "witness": wit})
+        return
+    first = bs[0]
+    if not (isinstance(first[1], HaltonSampler) and first[1] is sched.samplers[sched._halton_sampler_id]):
+        out["violations"].append({"msg": f"the RL scheduler's first batch after the switch was produced by {first[3]} (position {first[2]}), not by its bootstrap Halton sampler", "witness": wit})
+    for j, b in enumerate(bs[1:]):
+        if j >= len(plog) or b[2] != plog[j] or sched.samplers[plog[j]] is not b[1]:
+            out["violations"].append({"msg": f"after the switch, RL batch {j + 1} was produced by position {b[2]} ({b[3]}); the agent's choice number {j + 1} was {plog[j] if j < len(plog) else None}", "witness": dict(wit, policy=plog)})
+            break
 
 
 def run_ctor(desc, ctx, out):
@@ -350,6 +435,18 @@ def run_ctor(desc, ctx, out):
             if not isinstance(err, ValueError):
                 got = "no exception" if err is None else f"{type(err).__name__}: {err}"
                 out["violations"].append({"msg": f"samplers {'and' if has_s else 'nor'} scheduler given: expected ValueError, got {got}", "witness": wit})
+    # the sampler list handed over POSITIONALLY (7th argument), as older scripts do
+    c["ctor_combinations"] = c.get("ctor_combinations", 0) + 1
+    out["evals"] += 1
+    try:
+        pos_s = [RandomUniformSampler(1), HaltonSampler(2)]
+        with quiet():
+            cal_p = Calibrator(MinkowskiLoss(), np.zeros((12, 1)), M.witness_d1, [[0.0], [1.0]], [0.01], 1, pos_s, verbose=False, random_state=1, n_jobs=1)
+            cal_p.calibrate(2)
+        if [type(x) for x in cal_p.scheduler.samplers] != [RandomUniformSampler, HaltonSampler]:
+            out["violations"].append({"msg": "a sampler list given as the 7th positional argument is not what the calibrator schedules", "witness": {"case": "positional samplers"}})
+    except Exception as e:  # noqa: BLE001
+        out["violations"].append({"msg": f"Calibrator(loss, data, model, bounds, precisions, ensemble, samplers) with positional samplers raised {type(e).__name__}: {str(e)[:120]}", "witness": {"case": "positional samplers"}})
     # both given in less obvious ways: an empty sequence counts as given; the same objects in both arguments are still "both"
     shared = [RandomUniformSampler(1), HaltonSampler(2)]
     for label, s_arg, sc_arg in (("empty list and a scheduler", [], RoundRobinScheduler([HaltonSampler(1)])),
@@ -370,5 +467,5 @@ def run_ctor(desc, ctx, out):
 
 def run_case(desc, ctx):
     out = {"violations": [], "counters": {}, "evals": 0, "nontrivial": []}
-    {"rr": run_rr, "rl": run_rl, "ctor": run_ctor}[desc["kind"]](desc, ctx, out)
+    {"rr": run_rr, "rl": run_rl, "ctor": run_ctor, "switch": run_switch}[desc["kind"]](desc, ctx, out)
     return out
